@@ -23,6 +23,8 @@ structure Resp (σ : Type) where
   code : B
   description : B
   schema : Option σ
+  hasExample : Bool := false      -- the media type has the single `example` member
+  exampleNames : List B := []     -- keys of the media type's `examples` member (in key order)
 
 structure Operation (σ : Type) where
   opId : B
@@ -302,6 +304,14 @@ def generateOperationID (method path : B) : B :=
 
 /-! ## buildOperation -/
 
+/-- one `WithResponse(status, value, examples…)` call, as the option function sees it -/
+structure RespOpt where
+  status : Nat
+  nilValue : Bool      -- `resp == nil`
+  nonZero : Bool       -- `!isZeroValue(resp)`
+  named : List B       -- names of the named examples handed in, in call order
+  deriving Repr, Inhabited, DecidableEq
+
 /-- an operation as handed to `API.Generate` (the members of `operationDoc` the corpus sets) -/
 structure OpIn where
   method : B
@@ -316,6 +326,7 @@ structure OpIn where
   security : List (B × List B) := []       -- doc.Security (scheme, scopes)
   consumes : List B := []                  -- doc.Consumes as set by WithConsumes ([] = not set)
   produces : List B := []                  -- doc.Produces as set by WithProduces ([] = not set)
+  respOpts : List RespOpt := []            -- the WithResponse calls in order (for the example maps)
   deriving Repr, Inhabited
 
 inductive Err | dupOp | status | noPaths | validation | style | strict
@@ -433,6 +444,42 @@ def opBody (env : Env) (md : Option Meta) (st : Schemas) : Option IR × Schemas 
     else (none, st)
   | none => (none, st)
 
+/-! ### examples of a response (`WithResponse` → `ResponseExample` / `ResponseNamedExamples` → buildOperation) -/
+
+/-- `d.ResponseExample` has an entry for `status` after the calls ran in order: a call with a non-nil, non-zero
+    value and no named examples sets it; nothing ever deletes it -/
+def hasSample (opts : List RespOpt) (status : Nat) : Bool :=
+  opts.any fun o => o.status == status && !o.nilValue && o.named.isEmpty && o.nonZero
+
+/-- `d.ResponseNamedExamples[status]` after the calls ran in order: the last call with a non-nil value and named
+    examples decides -/
+def namedOf (opts : List RespOpt) (status : Nat) : List B :=
+  match (opts.filter fun o => o.status == status && !o.nilValue && !o.named.isEmpty).getLast? with
+  | some o => o.named
+  | none => []
+
+def insertName (x : B) : List B → List B
+  | [] => [x]
+  | y :: ys => if x = y then y :: ys else if bytesLe x y then x :: y :: ys else y :: insertName x ys
+
+/-- the keys of `mt.Examples` (a map: one entry per name), in key order -/
+def nameKeys (names : List B) : List B := names.foldl (fun acc n => insertName n acc) []
+
+/-- "single example OR named examples": named examples win, the single example is used only without them -/
+def exampleOf (opts : List RespOpt) (status : Nat) : Bool × List B :=
+  let named := namedOf opts status
+  if named.isEmpty then (hasSample opts status, []) else (false, nameKeys named)
+
+/-- the example members of the responses that have content (the status is read back from the code it was
+    rendered to) -/
+def attachEx (opts : List RespOpt) (rs : List (Resp IR)) : List (Resp IR) :=
+  rs.map fun r =>
+    if r.schema.isSome then
+      match parseNat r.code with
+      | some n => { r with hasExample := (exampleOf opts n).1, exampleNames := (exampleOf opts n).2 }
+      | none => { r with hasExample := false, exampleNames := [] }
+    else { r with hasExample := false, exampleNames := [] }
+
 def defaultResps : List (Resp IR) := [{ code := s "200", description := s "OK", schema := none }]
 
 def opIdOf (op : OpIn) : B :=
@@ -463,7 +510,7 @@ def buildOperation (env : Env) (op : OpIn) (st : Schemas) (seenOps : List B) :
       match genResps env (sortStatuses op.resps) br.2 with
       | .error e => .error e
       | .ok rr =>
-        let resps := if rr.1.isEmpty then defaultResps else rr.1
+        let resps := attachEx op.respOpts (if rr.1.isEmpty then defaultResps else rr.1)
         .ok ({ opId := opID, summary := op.summary, description := op.description, params := pr.1,
                body := br.1, resps := resps, tags := op.tags, deprecated := op.deprecated,
                security := op.security,
@@ -668,7 +715,8 @@ def Param.map {σ τ} (f : σ → τ) (p : Param σ) : Param τ :=
   { name := p.name, loc := p.loc, required := p.required, schema := f p.schema, style := p.style, explode := p.explode,
     description := p.description, exampleP := p.exampleP }
 def Resp.map {σ τ} (f : σ → τ) (r : Resp σ) : Resp τ :=
-  { code := r.code, description := r.description, schema := r.schema.map f }
+  { code := r.code, description := r.description, schema := r.schema.map f, hasExample := r.hasExample,
+    exampleNames := r.exampleNames }
 def Operation.map {σ τ} (f : σ → τ) (o : Operation σ) : Operation τ :=
   { opId := o.opId, summary := o.summary, description := o.description, params := o.params.map (Param.map f),
     body := o.body.map f, resps := sortResps (o.resps.map (Resp.map f)), tags := o.tags,
